@@ -45,6 +45,9 @@ func (h *recHandler) nextEmission(n int) mocrelay.ServerMsg {
 	case 2:
 		return mocrelay.NewServerEOSEMsg(tag)
 	case 3:
+		if n%3 == 0 { // a text that begins with its own prefix is still that text
+			return mocrelay.NewServerOKMsg(h.ev.ID, false, mocrelay.MachineReadablePrefixInvalid, mocrelay.MachineReadablePrefixInvalid+tag)
+		}
 		return mocrelay.NewServerOKMsg(h.ev.ID, n%2 == 0, mocrelay.MachineReadablePrefixDuplicate, tag)
 	case 4:
 		ap := true
@@ -128,7 +131,12 @@ func (g *frameGen) frameOf(class string, k int) frame {
 		e := signed(1)
 		return frame{class: class, data: js(&mocrelay.ClientEventMsg{Event: e}), ev: e}
 	case "auth":
-		return frame{class: class, data: js(&mocrelay.ClientAuthMsg{Event: signed(22242)})}
+		e := signed(22242)
+		if g.r.Intn(3) == 0 {
+			// authenticity is demanded of EVENT only: an AUTH whose event does not verify is a valid message
+			e.Sig = flipHexBit(e.Sig, g.r.Intn(128))
+		}
+		return frame{class: class, data: js(&mocrelay.ClientAuthMsg{Event: e})}
 	case "req":
 		texts := []string{`["REQ",%s,{}]`, ` [ "REQ" , %s , {"kinds":[1],"limit":3} , {"#a":["30000:` + g.w.pk + `:a:b"]} ] `, "[\"REQ\",%s,{\"since\":1,\"until\":2}]\n"}
 		return frame{class: class, data: []byte(fmt.Sprintf(texts[g.r.Intn(len(texts))], q(mk)))}
@@ -155,13 +163,19 @@ func (g *frameGen) frameOf(class string, k int) frame {
 			return frame{class: class, data: []byte(g.wireReject[g.r.Intn(len(g.wireReject))])}
 		}
 		e := signed(1)
-		switch g.r.Intn(3) {
+		switch g.r.Intn(6) {
 		case 0:
 			e.ID = strings.ToUpper(e.ID)
 		case 1:
 			e.Sig = e.Sig[:127]
 		case 2:
 			e.Kind = 70000
+		case 3:
+			e = signed(70000) // correctly signed, but the kind is out of range
+		case 4:
+			e = signed(-1)
+		case 5:
+			e = g.conc.SignRaw("a", 1700000000+int64(k), 1, []mocrelay.Tag{{}}, mk) // correctly signed, with an empty tag
 		}
 		return frame{class: class, data: js(&mocrelay.ClientEventMsg{Event: e})}
 	case "forgedsig":
